@@ -592,7 +592,10 @@ class VcfReader:
             assert fields[0][0] == fields[i][0]
         block_id = fields[0][0]
         order = [field[1] - 1 for field in fields]
-        phase = call["GT"]
+        phase = call.get("GT")
+        if phase is None:
+            # HP orders the alleles of the genotype: without a genotype there is no phase
+            return None
         phase = tuple(phase[order.index(i)] for i in range(len(order)))
         return VariantCallPhase(block_id=block_id, phase=phase, quality=call.get("PQ", None))
 
